@@ -33,7 +33,7 @@ def run(prop, tier):
     t = TIERS[tier]
     consts = dict(EXH, BNames=t["backends"], Kinds=KINDS, MaxHist=t["MaxHist"], EmitCases=True, MaxObjs=3, Defaults={False})
     cfg2 = tlc.make_cfg(consts, invariants=INV + ["Emit"], spec="HSpec")
-    sim = tlc.run("MC_Backend", cfg2, workers=4, simulate=f"num={t['num']}", depth=t["depth"], timeout=1800, tag=f"seed{sd}",
+    sim = tlc.run("MC_Backend", cfg2, workers=4, simulate=f"num={t['num']}", depth=t["depth"], timeout=1800, tag=f"seed{sd}", rseed=1000 + sd,
                   jvm_opts=(), env_extra=None)
     if not sim.cases_path:
         raise Machinery("MC_Backend simulation printed no behaviours:\n" + sim.tail[-2000:])
